@@ -432,6 +432,106 @@ Proof.
   simpl; exact Q.
 Qed.
 
+(* ---------------- GMRES / FGMRES: junk independence ----------------
+   cells of H, cs, sn, s, v[], z[] are read only after they were written in the same restart
+   cycle; the relation [core j] lists what has been written when the inner loop is at index j *)
+Definition Agr (Q : nat -> nat -> Prop) (Ha Hb : nat -> nat -> S) : Prop :=
+  forall r c, Q r c -> Ha r c = Hb r c.
+
+Lemma agr_updm Q (Ha Hb : nat -> nat -> S) i j v :
+  Agr Q Ha Hb -> Agr (fun r c => Q r c \/ (r = i /\ c = j)) (updm Ha i j v) (updm Hb i j v).
+Proof.
+  intros H r c [Hq | [-> ->]]; unfold updm.
+  - destruct (Nat.eqb r i && Nat.eqb c j); [reflexivity | apply H; exact Hq].
+  - rewrite !Nat.eqb_refl. reflexivity.
+Qed.
+Lemma agr_updm_same Q (Ha Hb : nat -> nat -> S) i j v :
+  Agr Q Ha Hb -> Agr Q (updm Ha i j v) (updm Hb i j v).
+Proof. intros H r c Hq. apply (agr_updm Q Ha Hb i j v H). left; exact Hq. Qed.
+Lemma agr_weaken (Q Q' : nat -> nat -> Prop) (Ha Hb : nat -> nat -> S) :
+  (forall r c, Q' r c -> Q r c) -> Agr Q Ha Hb -> Agr Q' Ha Hb.
+Proof. intros W H r c Hq. apply H, W, Hq. Qed.
+
+Lemma mgs_agree (va vb : nat -> vec) j ks : forall Q (Ha Hb : nat -> nat -> S) (w : vec),
+  Agr Q Ha Hb -> (forall k, In k ks -> va k = vb k) ->
+  snd (mgs va j ks Ha w) = snd (mgs vb j ks Hb w) /\
+  Agr (fun r c => Q r c \/ (c = j /\ In r ks)) (fst (mgs va j ks Ha w)) (fst (mgs vb j ks Hb w)).
+Proof.
+  induction ks as [|k tl IH]; intros Q Ha Hb w HA Hv; simpl.
+  - split; [reflexivity|]. eapply agr_weaken; [|exact HA]. intros r c [H|[_ []]]; exact H.
+  - rewrite <- (Hv k (or_introl eq_refl)).
+    destruct (IH (fun r c => Q r c \/ (r = k /\ c = j))
+                 (updm Ha k j (ip w (va k))) (updm Hb k j (ip w (va k)))
+                 (k_axpby (- ip w (va k)) (va k) s1 w)
+                 (agr_updm Q Ha Hb k j _ HA) (fun k' H => Hv k' (or_intror H))) as (E1 & E2).
+    split; [exact E1|].
+    eapply agr_weaken; [|exact E2]. intros r c [H|[Hc [Hr|Hr]]].
+    + left; left; exact H.
+    + left; right; split; [symmetry; exact Hr | exact Hc].
+    + right; split; assumption.
+Qed.
+
+Lemma rot_col_agree (csa sna csb snb : nat -> S) j ks : forall Q (Ha Hb : nat -> nat -> S),
+  Agr Q Ha Hb ->
+  (forall k, In k ks -> Q k j /\ Q (SS k) j /\ csa k = csb k /\ sna k = snb k) ->
+  Agr Q (rot_col csa sna j ks Ha) (rot_col csb snb j ks Hb).
+Proof.
+  induction ks as [|k tl IH]; intros Q Ha Hb HA Hk; simpl; [exact HA|].
+  destruct (Hk k (or_introl eq_refl)) as (Q1 & Q2 & Ec & Es).
+  rewrite <- (HA _ _ Q1), <- (HA _ _ Q2), <- Ec, <- Es.
+  unfold app_rot. apply IH.
+  - apply agr_updm_same, agr_updm_same, HA.
+  - intros k' H. apply Hk. right; exact H.
+Qed.
+
+Definition core (j : nat) (w1 w2 : gm_ws) : Prop :=
+  (forall k, k <= j -> g_v w1 k = g_v w2 k) /\
+  (forall k, k < j -> g_cs w1 k = g_cs w2 k /\ g_sn w1 k = g_sn w2 k) /\
+  (forall k, g_s w1 k = g_s w2 k) /\
+  Agr (fun r c => c < j /\ r <= SS c) (g_H w1) (g_H w2).
+
+Lemma upd_same {X} (ma mb : nat -> X) i v k : ma k = mb k -> upd ma i v k = upd mb i v k.
+Proof. unfold upd. destruct (Nat.eqb k i); auto. Qed.
+
+Lemma arnoldi_tail_core (w1 w2 : gm_ws) j (vnew0 : vec) : core j w1 w2 ->
+  core (SS j) (fst (arnoldi_tail w1 j vnew0)) (fst (arnoldi_tail w2 j vnew0)) /\
+  snd (arnoldi_tail w1 j vnew0) = snd (arnoldi_tail w2 j vnew0) /\
+  g_r (fst (arnoldi_tail w1 j vnew0)) = g_r w1 /\ g_r (fst (arnoldi_tail w2 j vnew0)) = g_r w2 /\
+  g_z (fst (arnoldi_tail w1 j vnew0)) = g_z w1 /\ g_z (fst (arnoldi_tail w2 j vnew0)) = g_z w2.
+Proof.
+  intros (Cv & Cr & Cs & CH). unfold arnoldi_tail.
+  pose proof (mgs_agree (g_v w1) (g_v w2) j (seq 0 (SS j)) _ (g_H w1) (g_H w2) vnew0 CH
+                (fun k H => Cv k ltac:(apply in_seq in H; lia))) as (Ev & EH).
+  destruct (mgs (g_v w1) j (seq 0 (SS j)) (g_H w1) vnew0) as [H1a v1a].
+  destruct (mgs (g_v w2) j (seq 0 (SS j)) (g_H w2) vnew0) as [H1b v1b].
+  simpl in Ev, EH. subst v1b.
+  set (hj1 := norm_b v1a).
+  set (Q := fun r c : nat => c < SS j /\ r <= SS c).
+  assert (A2 : Agr Q (updm H1a (SS j) j hj1) (updm H1b (SS j) j hj1)).
+  { eapply agr_weaken; [|apply agr_updm; exact EH]. unfold Q. intros r c (Hc & Hr).
+    destruct (Nat.eq_dec c j) as [->|Nc].
+    - destruct (Nat.eq_dec r (SS j)) as [->|Nr]; [right; auto|].
+      left; right. split; [reflexivity|]. apply in_seq. lia.
+    - left; left. split; lia. }
+  assert (A3 : Agr Q (rot_col (g_cs w1) (g_sn w1) j (seq 0 j) (updm H1a (SS j) j hj1))
+                     (rot_col (g_cs w2) (g_sn w2) j (seq 0 j) (updm H1b (SS j) j hj1))).
+  { apply rot_col_agree; [exact A2|]. intros k Hk. apply in_seq in Hk.
+    destruct (Cr k ltac:(lia)) as (E1 & E2). unfold Q. repeat split; try lia; assumption. }
+  set (H3a := rot_col (g_cs w1) (g_sn w1) j (seq 0 j) (updm H1a (SS j) j hj1)) in *.
+  set (H3b := rot_col (g_cs w2) (g_sn w2) j (seq 0 j) (updm H1b (SS j) j hj1)) in *.
+  rewrite <- (A3 j j ltac:(unfold Q; lia)), <- (A3 (SS j) j ltac:(unfold Q; lia)).
+  rewrite <- (Cs j), <- (Cs (SS j)).
+  destruct (gen_rot (H3a j j) (H3a (SS j) j)) as [c s]. unfold app_rot. simpl.
+  repeat split; try reflexivity.
+  - intros k Hk. apply upd_same. apply Cv. lia. 
+  - destruct (Nat.eq_dec k j) as [->|Nk]; [unfold upd; rewrite Nat.eqb_refl; reflexivity|].
+    apply upd_same. apply Cr. lia.
+  - destruct (Nat.eq_dec k j) as [->|Nk]; [unfold upd; rewrite Nat.eqb_refl; reflexivity|].
+    apply upd_same. apply Cr. lia.
+  - intro k. apply upd_same, upd_same, Cs.
+  - apply agr_updm_same, agr_updm_same. exact A3.
+Qed.
+
 Opaque gm_cycle fg_cycle.
 
 (* outer loop: iteration bound, fuel maxiter+1 suffices, and the returned number is the norm of the
